@@ -146,6 +146,7 @@ class Client:
         self.ngens = 0
         self.ntimeouts = 0
         self.sent = 0  # datagrams injected for this address
+        self.wait_deadline: float | None = None  # absolute deadline of the timeout the handler is currently waiting with
         self.reacted = 0
 
     def next_gen_len(self) -> int:
@@ -178,6 +179,7 @@ class Ctx:
         self.staged: list[list] = []  # [iterations left, client, payload]
         self.stopping = False
         self.pausing = False
+        self.resuming = False
         self.pauses: list[tuple[int, float]] = []  # (len(net.dgram_log) when serving stopped, time serving resumed)
         self.violation: Violation | None = None
         self.scripted_left = len(sc["arrivals"])
@@ -241,8 +243,12 @@ class Ctx:
             seen = 0
             T: float | None = None
             while seen < k:
+                cl.wait_deadline = None if T is None else world.now + T
                 try:
-                    req = yield T
+                    try:
+                        req = yield T
+                    finally:
+                        cl.wait_deadline = None
                 except GeneratorExit:
                     world.log("genexit", cl.label)
                     raise
@@ -351,6 +357,29 @@ class Ctx:
             out.append(prev)
         return out
 
+    def no_deadline_now(self) -> bool:
+        """no handler is waiting with a timeout that expires at this very instant (see stop_point)"""
+        return all(cl.wait_deadline is None or cl.wait_deadline > self.world.now for cl in self.clients)
+
+    async def stop_point(self, step: float) -> None:
+        """Move to an instant at which serving can be stopped without the stop coinciding with the expiry of a handler's
+        yielded timeout: an odd multiple of `step` (all deadlines are multiples of 1/1024 s, resp. of the previous
+        step), and not while a handler spins on zero timeouts.  Reason: on the current tree an external cancellation
+        that reaches a task in the same loop iteration as the expiry of its `backend.timeout()` scope is swallowed by
+        the scope (TimeoutError is raised, task.cancelling() stays 1): a handler that then waits again is never
+        cancelled and the server's task group never finishes.  That is a cancel-scope matter (C13), reported to the
+        lead; C16 keeps out of it."""
+        w = self.world
+        target = ((w.now // (2 * step)) * 2 + 1) * step
+        if target <= w.now:
+            target += 2 * step
+        await asyncio.sleep(target - w.now)
+        for _ in range(200):
+            if self.no_deadline_now():
+                return
+            await asyncio.sleep(0)
+        raise HarnessError("handlers keep spinning on expired timeouts")
+
     def all_handled(self) -> bool:
         if self.scripted_left or self.staged:
             return False
@@ -392,9 +421,15 @@ def _run(world: World, low: bool) -> None:
         pause = sc["pause"]
         if pause is not None:
             await asyncio.sleep(max(0.0, base + pause["t"] * G - world.now))
-            while not ctx.quiescent() and world.now < t_last + budget and not serve_task.done() and ctx.violation is None:
+            ready = False
+            while world.now < t_last + budget and not serve_task.done() and ctx.violation is None:
+                if ctx.quiescent():
+                    await ctx.stop_point(1 / 2048)
+                    if ctx.quiescent() and ctx.no_deadline_now():
+                        ready = True
+                        break
                 await asyncio.sleep(G)
-            if ctx.quiescent() and not serve_task.done() and ctx.violation is None:
+            if ready and not serve_task.done() and ctx.violation is None:
                 # stop serving at a moment where nothing is in flight: whatever reaches the socket from now on has to
                 # be delivered by the next serving period
                 world.fault("cancel_at_time")
@@ -411,12 +446,17 @@ def _run(world: World, low: bool) -> None:
                     ctx.arrive(ctx.clients[k], False, 0)
                 if pause["gap"]:
                     await asyncio.sleep(pause["gap"] * G)
+                ctx.resuming = True
                 serve_task = await start()
                 ctx.pauses.append((n_stop, world.now))
                 world.log("resume", name, len(net.dgram_log))
+                await settle(world, 4)
+                if serve_task.done():
+                    ctx.flag("server-up", f"serving again on the same server object after the first serving period was stopped at t={t_stop}: the new serve()/serve_forever() ended at once ({'cancelled' if serve_task.cancelled() else repr(serve_task.exception())}); {len(net.dgram_log) - n_stop} datagrams had reached the socket in between", "serve-again")
         while not ctx.all_handled() and world.now < t_last + budget and not serve_task.done() and ctx.violation is None:
             await asyncio.sleep(0.25)
         await settle(world, 8)
+        await ctx.stop_point(1 / 4096)
         if serve_task.done():
             exc = serve_task.exception() if not serve_task.cancelled() else None
             ctx.flag("server-up", f"the server stopped by itself during the workload: {type(exc).__name__}: {exc}", type(exc).__name__)
@@ -437,7 +477,8 @@ def _run(world: World, low: bool) -> None:
             await asyncio.wait([task, waiter], return_when=asyncio.FIRST_COMPLETED)
             if not up.is_set():
                 waiter.cancel()
-                raise HarnessError(f"server did not start: {task.exception()!r}")
+                if not ctx.pauses and not ctx.resuming:
+                    raise HarnessError(f"server did not start: {task!r}")
             return task
 
         async def stop(task: asyncio.Task) -> None:
